@@ -43,31 +43,36 @@ Definition all_ids (m : model) : list name :=
   keys (m_var m) ++ keys (m_par m) ++ keys (m_der m) ++ keys (m_rxn m).
 Definition UniqueIds (m : model) : Prop := NoDup (all_ids m) /\ ~ In time_name (all_ids m).
 
-(** ---- same model up to a relation [R] between function ids ------------------------------ *)
+(** ---- same model up to a relation [R] between function ids ------------------------------
+    [R args f f']: "f and f' are interchangeable where they are applied to the model names [args]"
+    (the relation may depend on the argument list: a function applied to ['x','x'] only ever sees
+    equal values at its two positions). *)
 
-Definition val_rel (R : fnid -> fnid -> Prop) (a b : name * valia) : Prop :=
+Definition fnrel := list name -> fnid -> fnid -> Prop.
+
+Definition val_rel (R : fnrel) (a b : name * valia) : Prop :=
   fst a = fst b /\
   match snd a, snd b with
   | Plain x, Plain y => x = y
-  | IA f args, IA f' args' => R f f' /\ args = args'
+  | IA f args, IA f' args' => R args f f' /\ args = args'
   | _, _ => False
   end.
-Definition der_rel (R : fnid -> fnid -> Prop) (a b : name * derived) : Prop :=
-  fst a = fst b /\ R (d_fn (snd a)) (d_fn (snd b)) /\ d_args (snd a) = d_args (snd b).
-Definition coef_rel (R : fnid -> fnid -> Prop) (a b : name * coef) : Prop :=
+Definition der_rel (R : fnrel) (a b : name * derived) : Prop :=
+  fst a = fst b /\ R (d_args (snd a)) (d_fn (snd a)) (d_fn (snd b)) /\ d_args (snd a) = d_args (snd b).
+Definition coef_rel (R : fnrel) (a b : name * coef) : Prop :=
   fst a = fst b /\
   match snd a, snd b with
   | CStat x, CStat y => x = y
-  | CDyn f args, CDyn f' args' => R f f' /\ args = args'
+  | CDyn f args, CDyn f' args' => R args f f' /\ args = args'
   | _, _ => False
   end.
-Definition rxn_rel (R : fnid -> fnid -> Prop) (a b : name * reaction) : Prop :=
-  fst a = fst b /\ R (r_fn (snd a)) (r_fn (snd b)) /\ r_args (snd a) = r_args (snd b)
+Definition rxn_rel (R : fnrel) (a b : name * reaction) : Prop :=
+  fst a = fst b /\ R (r_args (snd a)) (r_fn (snd a)) (r_fn (snd b)) /\ r_args (snd a) = r_args (snd b)
   /\ Forall2 (coef_rel R) (r_st (snd a)) (r_st (snd b)).
 
 (** same names, kinds, order, values, argument lists, coefficients; related functions; and the
     second model has no surrogates, readouts or data *)
-Definition model_rel (R : fnid -> fnid -> Prop) (m m' : model) : Prop :=
+Definition model_rel (R : fnrel) (m m' : model) : Prop :=
   Forall2 (val_rel R) (m_var m) (m_var m')
   /\ Forall2 (val_rel R) (m_par m) (m_par m')
   /\ Forall2 (der_rel R) (m_der m) (m_der m')
